@@ -160,7 +160,7 @@ def r2(ctx, R):
         R.bad(ca, ca.node, "clear_all_values does not forward clear_input to clear_value_at", stmt="clear_value_at")
     else:
         loop = enclosing_for(ca, cs[0])
-        if loop is None or "self.data" not in norm(loop.iter):
+        if loop is None or "self.data" not in q.rnorm(ca, loop.iter):
             R.bad(ca, cs[0], "clear_all_values does not iterate over all held keys")
     cc = ctx.func("BaseSpaceImpl.clear_all_cells")
     R.inst("clear_all_cells forwards clear_input, default False")
